@@ -274,6 +274,30 @@ def run(ctx):
     check_envelope_membership(ctx, prog, ep, esc, rule="c09.scope")
     # V is the sum of floor area x net height over the envelope's spaces: the floor area must find the floor from either side (the rule C11 owns)
     check_floor_either_side(ctx, prog, rule="c09.volume")
+    # support of the C_h fallback (`props.wincons.get(cons)` is None <=> the model defines no such construction, then 100): the keys of props.wincons
+    # are the ids of model.cons.wincons and nothing else - an entry made up for an undefined id would silently disable the fallback (and the 0.77 / 5.7 ones)
+    from ..mir import callee_name as _cn
+    nins = 0
+    for sc_ in esc.all_scopes():
+        for b_, t_ in sc_.body.calls():
+            nm_ = short_callee(_cn(t_) or "")
+            if nm_ not in ("insert", "entry") or "BTreeMap" not in (_cn(t_) or "") and "btree" not in (_cn(t_) or "").lower():
+                continue
+            if len(t_["args"]) < 2:
+                continue
+            recv_ = show(strip(sc_.operand(t_["args"][0])))
+            if "wincons" not in recv_ or "cons.wincons" in recv_:
+                continue
+            nins += 1
+            kn_ = strip(sc_.operand(t_["args"][1]))
+            kl_ = leaf_name(kn_) or show(kn_)
+            key_ = "c09.support|props.wincons-keys|%d" % nins
+            if kl_.endswith("cons.wincons[].id"):
+                ctx.ok("c09.support", key_, "props.wincons gets an entry under the id of a construction the model defines (%s)" % kl_[-40:], sc_.fn.loc(t_.get("ln")))
+            else:
+                ctx.violation("c09.support", key_, "props.wincons gets an entry under %s, not under the id of a defined construction: for such a window the lookup "
+                              "succeeds and the documented fallbacks (C_h = 100, g = 0.77, U = 5.7) never apply" % kl_[:80], sc_.fn.loc(t_.get("ln")))
+    ctx.floor("c09.support", "insertions into props.wincons", nins, 1)
     from .c06 import local_defs
     co = local_defs(esc, "c_o_100")
     ctx.require(len(co) == 1, "EnergyProps::from: c_o_100 not found")
